@@ -44,6 +44,9 @@ func paramsToGo(ps map[string]STerm) parser.ParametersMap {
 	for k, v := range ps {
 		m[k] = v.toBiscuit()
 	}
+	if _, ok := ps["pv"]; ok {
+		m["pnil"] = nil // key present, no value: an unbound parameter
+	}
 	return m
 }
 func paramsCoq(ps map[string]STerm) string {
@@ -90,7 +93,10 @@ func runC14(res *Result, rng *RNG, tier string, outDir string) {
 	for _, cw := range []struct {
 		text string
 		want int64
-	}{{`p(-1)`, -1}, {`p(-9223372036854775808)`, -9223372036854775808}, {`p( - 42 )`, -42}} {
+	}{{`p(-1)`, -1}, {`p(-9223372036854775808)`, -9223372036854775808}, {`p( - 42 )`, -42},
+		// base 10 whatever the leading zeros (fix bd84bfe)
+		{`p(010)`, 10}, {`p(08)`, 8}, {`p(00)`, 0}, {`p(000)`, 0}, {`p(-00)`, 0}, {`p(007)`, 7}, {`p(-017)`, -17}, {`p(0)`, 0},
+		{`p(09223372036854775807)`, 9223372036854775807}} {
 		got, err := parser.FromStringFact(cw.text)
 		rep := map[string]interface{}{"kind": "fact", "text": cw.text}
 		res.Count("corpus "+cw.text, true)
@@ -343,6 +349,12 @@ func runC14(res *Result, rng *RNG, tier string, outDir string) {
 			{"PCheck", `check if resource($r), {pv} == {p2}`, "variable-parameter-in-expression", false},
 			{"PRule", `ok({pv}) <- resource({pv}, {p2})`, "variable-parameter-in-rule", false},
 			{"PFact", `resources([{p2}, "file1"])`, "ground-parameter-in-set", false},
+			// a parameter whose key is present but whose value is nil is unbound
+			{"PFact", `right({pnil})`, "unbound-parameter-nil-value", true},
+			{"PRule", `ok($r) <- resource($r, {pnil})`, "unbound-parameter-nil-value", true},
+			{"PCheck", `check if resource({pnil})`, "unbound-parameter-nil-value", true},
+			{"PCheck", `check if resource($r), $r == {pnil}`, "unbound-parameter-nil-value", true},
+			{"PFact", `right({absent})`, "unbound-parameter", true},
 		} {
 			var err error
 			var obs string
